@@ -53,7 +53,7 @@ type Contract struct {
 	Line        int
 	Unroll      map[int]int // loop ordinal -> constant bound to unroll
 	Ghost       []string
-	Exceptional []*Clause // onpanic ensures
+	OnPanic     []*Clause // exceptional postconditions (onpanic ensures): hold whenever the function is left by a panic, after its defers ran
 	Witnesses   []*Witness
 	Splits      [][]*Clause // case splits applied to every ensures clause (cartesian product)
 	PreCalls    []*DynCall  // obligations at calls to a named static callee, evaluated in the caller's scope
@@ -69,6 +69,7 @@ type DynCall struct {
 	Field   string
 	Clause  *Clause
 	Ensures bool // assumed after the call instead of required before it
+	OnPanic bool // assumed of the state in which the call is left by a panic
 }
 
 // Witness: a ghost out-parameter; "witness s = expr after callee#n" binds s to expr evaluated right
@@ -327,15 +328,6 @@ func (cs *ContractSet) parseFile(path, pkgPath string) error {
 				c.Label = strconv.Itoa(len(cur.Ensures) + 1)
 			}
 			cur.Ensures = append(cur.Ensures, c)
-		case "onpanic":
-			c, err := mk(rest)
-			if err != nil {
-				return err
-			}
-			if c.Label == "" {
-				c.Label = strconv.Itoa(len(cur.Exceptional) + 1)
-			}
-			cur.Exceptional = append(cur.Exceptional, c)
 		case "modifies":
 			cur.HasMod = true
 			for _, m := range strings.Split(rest, ",") {
@@ -444,8 +436,8 @@ func (cs *ContractSet) parseFile(path, pkgPath string) error {
 		case "dyncall":
 			fld, r2 := splitWord(rest)
 			kw, r3 := splitWord(r2)
-			if kw != "requires" && kw != "ensures" {
-				return fmt.Errorf("%s:%d: dyncall <field> requires|ensures <expr>", path, ln)
+			if kw != "requires" && kw != "ensures" && kw != "onpanic" {
+				return fmt.Errorf("%s:%d: dyncall <field> requires|ensures|onpanic <expr>", path, ln)
 			}
 			c, err := mk(r3)
 			if err != nil {
@@ -454,7 +446,21 @@ func (cs *ContractSet) parseFile(path, pkgPath string) error {
 			if c.Label == "" {
 				c.Label = strconv.Itoa(len(cur.DynCalls) + 1)
 			}
-			cur.DynCalls = append(cur.DynCalls, &DynCall{Field: fld, Clause: c, Ensures: kw == "ensures"})
+			cur.DynCalls = append(cur.DynCalls, &DynCall{Field: fld, Clause: c, Ensures: kw == "ensures", OnPanic: kw == "onpanic"})
+		case "onpanic":
+			// "onpanic ensures e": e holds whenever the function is left by a panic, after its deferred calls ran
+			kw, r2 := splitWord(rest)
+			if kw != "ensures" {
+				return fmt.Errorf("%s:%d: onpanic ensures <expr>", path, ln)
+			}
+			c, err := mk(r2)
+			if err != nil {
+				return err
+			}
+			if c.Label == "" {
+				c.Label = strconv.Itoa(len(cur.OnPanic) + 1)
+			}
+			cur.OnPanic = append(cur.OnPanic, c)
 		case "uses":
 			cur.Uses = append(cur.Uses, strings.Fields(rest)...)
 		case "trustframe":
